@@ -283,7 +283,9 @@ impl Monitor {
             _ => (prop, detail),
         };
         if let Some(f) = &self.focus {
-            if f != prop && ["C13", "C14", "C15"].contains(&prop) {
+            // (the count-word-after-free observation is harmless to continue from: the block is
+            // quarantined, not freed)
+            if f != prop && (["C13", "C14", "C15", "C05"].contains(&prop) || kind == "count-access-after-free") {
                 if self.foreign.len() < 8 {
                     self.foreign.push((prop, kind));
                 }
@@ -600,10 +602,25 @@ impl Monitor {
                 weak
             )
         });
-        let registered = self.cells.contains_key(&cell);
-        if !registered {
+        let Some(&(held, _)) = self.cells.get(&cell) else {
             // A cell the driver never registered (not reachable by the program): ignore.
             return;
+        };
+        // The operation reports what it believes it replaced. Every write of a link is one atomic
+        // read-modify-write (swap, compare_exchange) or happens under exclusive access (take), so
+        // that must be what the link really held: otherwise another write was lost in between.
+        if (self.word_addr)(held) != (self.word_addr)(old) {
+            let (h, o) = (self.obj_of_word(held), oo);
+            self.violate(
+                if weak { "C09" } else { "C08" },
+                "link-write-not-atomic",
+                format!(
+                    "a write to link c{} released {:?} as the previous content, but the link held {:?}: a concurrent write was lost",
+                    c,
+                    o.map(|x| format!("o{}", x)),
+                    h.map(|x| format!("o{}", x))
+                ),
+            );
         }
         self.cells.insert(cell, (new, weak));
         let op = if t < sched::MAX_THREADS {
